@@ -257,7 +257,8 @@ fn corrupt_here(rng: &mut Rng, s: &spec::Node, v: &mut value::Node, cfg: &GenCfg
                     vm.remove(&k);
                     return Some("sub-missing-key");
                 } else {
-                    let mut extra = "zz_extra".to_string();
+                    // (sometimes long and not ASCII: error messages that quote the offending text must cope with it)
+                    let mut extra = if rng.chance(1, 2) { "zz_extra".to_string() } else { format!("zz_{}", "\u{e9}".repeat(20 + rng.below(30) as usize)) };
                     while map.contains_key(&extra) { extra.push('z'); }
                     vm.insert(extra, Box::new(value::Node::Bool(true)));
                     return Some("sub-extra-key");
@@ -293,13 +294,13 @@ fn corrupt_here(rng: &mut Rng, s: &spec::Node, v: &mut value::Node, cfg: &GenCfg
             } else { None }
         }
         spec::Node::Variant { map, .. } => {
-            let mut name = "zz_unknown".to_string();
+            let mut name = if rng.chance(1, 2) { "zz_unknown".to_string() } else { format!("zz_{}", "\u{20ac}".repeat(13 + rng.below(20) as usize)) };
             while map.contains_key(&name) { name.push('z'); }
             *v = value::Node::Variant(name, Box::new(value::Node::Const));
             Some("variant-unknown")
         }
         spec::Node::Enum { values, .. } => {
-            let mut name = "zz_unknown".to_string();
+            let mut name = if rng.chance(1, 2) { "zz_unknown".to_string() } else { format!("z{}", "\u{e9}".repeat(20 + rng.below(30) as usize)) };
             while values.contains(&name) { name.push('z'); }
             *v = value::Node::Enum(name);
             Some("enum-unknown")
@@ -344,7 +345,7 @@ pub fn corrupt_json(rng: &mut Rng, j: &mut J) {
         J::Object(m) => match rng.below(4) {
             0 => { let ks: Vec<String> = m.keys().cloned().collect(); if let Some(k) = ks.first() { m.remove(k); } }
             1 => { m.insert(rng.pick(STRINGS).to_string(), gen_json(rng, 2)); }
-            2 => { m.insert(format!("{}", rng.below(30)), gen_json(rng, 2)); }
+            2 => { m.insert(if rng.chance(1, 3) { format!("k{}", "\u{e9}".repeat(20 + rng.below(30) as usize)) } else { format!("{}", rng.below(30)) }, gen_json(rng, 2)); }
             _ => { *j = gen_json(rng, 2); }
         },
         _ => { *j = gen_json(rng, 2); }
